@@ -302,7 +302,14 @@ fn stream_order_inline<const N: usize>() {
 
 /// MergeOrderedHook (inline): the merged batch is an interleaving: taking the items marked `false`/`true` in `release_sources`
 /// gives back the first/second input, each in its own order.
-fn merge_ordered_inline<const N1: usize, const N2: usize>() {
+fn merge_ordered_inline<const N1: usize, const N2: usize>() { let mut d = HDriver; merge_ordered_inline_with::<N1, N2>(&mut d) }
+/// the same contract under ONE scripted decision sequence (bit i of `bits` = the i-th take_second answer): the harnesses below enumerate
+/// every sequence MergeOrderedHook can consume for inputs of <= 2 + 2 items, each in seconds (the havoc-driver versions need minutes)
+fn merge_ordered_script<const N1: usize, const N2: usize>(bits: u8) {
+    let mut d = ScriptDriver { bools: [bits & 1 != 0, bits & 2 != 0, bits & 4 != 0, bits & 8 != 0], bi: 0, idx: 0 };
+    merge_ordered_inline_with::<N1, N2>(&mut d)
+}
+fn merge_ordered_inline_with<const N1: usize, const N2: usize>(d: &mut dyn DynDriver) {
     let a = items::<N1>();
     let b = items::<N2>();
     let first = Rc::new(RefCell::new(Some(vec_of(&a))));
@@ -310,8 +317,7 @@ fn merge_ordered_inline<const N1: usize, const N2: usize>() {
     let (tx, rx) = unbounded::<Vec<u8>>();
     let mut h = MergeOrderedHook::new(first.clone(), second.clone(), tx, LOC, no_debug);
     kani::assert(h.pending_decision() && !h.has_decision(), "C36:inline_hook_pending_iff_input_present");
-    let mut d = HDriver;
-    h.autonomous_decision(&mut Borrowed(&mut d));
+    h.autonomous_decision(&mut Borrowed(d));
     kani::assert(h.has_decision() && first.borrow().is_none() && second.borrow().is_none(), "C36:inline_decision_takes_the_input_batch");
     let batch: Vec<u8> = h.to_release.clone().unwrap();
     let src: Vec<bool> = h.release_sources.clone().unwrap();
@@ -416,7 +422,7 @@ pub(crate) fn deep_keyed_stream_total_order_one_key() {
 /// With a havoc driver the two-item fold harness is out of CBMC's reach (> 20 min).  Here the driver is SCRIPTED: each harness replays
 /// one concrete decision sequence (two include/exclude answers, one Fisher-Yates index); the 8 harnesses enumerate every sequence the
 /// hook can consume for a queue of two items, which is the property's own quantifier.  Items stay symbolic.
-struct ScriptDriver { bools: [bool; 2], bi: usize, idx: usize }
+struct ScriptDriver { bools: [bool; 4], bi: usize, idx: usize }
 impl DynDriver for ScriptDriver {
     fn depth(&self) -> usize { 0 }
     fn set_depth(&mut self, _depth: usize) {}
@@ -429,7 +435,7 @@ impl DynDriver for ScriptDriver {
         Some(if self.idx < lo { lo } else if self.idx > hi { hi } else { self.idx })
     }
     fn gen_bool(&mut self, _probability: Option<f32>) -> Option<bool> {
-        let b = if self.bi < 2 { self.bools[self.bi] } else { false };
+        let b = if self.bi < 4 { self.bools[self.bi] } else { false };
         self.bi += 1;
         Some(b)
     }
@@ -455,7 +461,7 @@ fn fold2_script(b0: bool, b1: bool, idx: usize) {
     let input = queue(&it);
     let (tx, rx) = unbounded::<Vec<u8>>();
     let mut h = TopLevelFoldHook { input: input.clone(), to_release: None, output: tx, location: LOC, format_item_debug: no_debug };
-    let mut d = ScriptDriver { bools: [b0, b1], bi: 0, idx };
+    let mut d = ScriptDriver { bools: [b0, b1, false, false], bi: 0, idx };
     let r = h.autonomous_decision(&mut Borrowed(&mut d), kani::any());
     {
         let released = h.to_release.as_ref().unwrap();
@@ -475,3 +481,23 @@ fn fold2_script(b0: bool, b1: bool, idx: usize) {
 #[kani::proof] #[kani::unwind(5)] pub(crate) fn top_level_fold2_script_tf1() { fold2_script(true, false, 1) }
 #[kani::proof] #[kani::unwind(5)] pub(crate) fn top_level_fold2_script_tt0() { fold2_script(true, true, 0) }
 #[kani::proof] #[kani::unwind(5)] pub(crate) fn top_level_fold2_script_tt1() { fold2_script(true, true, 1) }
+
+// enumerated decision scripts for MergeOrderedHook (quick tier)
+#[kani::proof] #[kani::unwind(6)] pub(crate) fn merge_ordered_script_1_1_b0() { merge_ordered_script::<1, 1>(0) }
+#[kani::proof] #[kani::unwind(6)] pub(crate) fn merge_ordered_script_1_1_b1() { merge_ordered_script::<1, 1>(1) }
+#[kani::proof] #[kani::unwind(6)] pub(crate) fn merge_ordered_script_2_1_b0() { merge_ordered_script::<2, 1>(0) }
+#[kani::proof] #[kani::unwind(6)] pub(crate) fn merge_ordered_script_2_1_b1() { merge_ordered_script::<2, 1>(1) }
+#[kani::proof] #[kani::unwind(6)] pub(crate) fn merge_ordered_script_2_1_b2() { merge_ordered_script::<2, 1>(2) }
+#[kani::proof] #[kani::unwind(6)] pub(crate) fn merge_ordered_script_2_1_b3() { merge_ordered_script::<2, 1>(3) }
+#[kani::proof] #[kani::unwind(6)] pub(crate) fn merge_ordered_script_1_2_b0() { merge_ordered_script::<1, 2>(0) }
+#[kani::proof] #[kani::unwind(6)] pub(crate) fn merge_ordered_script_1_2_b1() { merge_ordered_script::<1, 2>(1) }
+#[kani::proof] #[kani::unwind(6)] pub(crate) fn merge_ordered_script_1_2_b2() { merge_ordered_script::<1, 2>(2) }
+#[kani::proof] #[kani::unwind(6)] pub(crate) fn merge_ordered_script_1_2_b3() { merge_ordered_script::<1, 2>(3) }
+#[kani::proof] #[kani::unwind(6)] pub(crate) fn merge_ordered_script_2_2_b0() { merge_ordered_script::<2, 2>(0) }
+#[kani::proof] #[kani::unwind(6)] pub(crate) fn merge_ordered_script_2_2_b1() { merge_ordered_script::<2, 2>(1) }
+#[kani::proof] #[kani::unwind(6)] pub(crate) fn merge_ordered_script_2_2_b2() { merge_ordered_script::<2, 2>(2) }
+#[kani::proof] #[kani::unwind(6)] pub(crate) fn merge_ordered_script_2_2_b3() { merge_ordered_script::<2, 2>(3) }
+#[kani::proof] #[kani::unwind(6)] pub(crate) fn merge_ordered_script_2_2_b4() { merge_ordered_script::<2, 2>(4) }
+#[kani::proof] #[kani::unwind(6)] pub(crate) fn merge_ordered_script_2_2_b5() { merge_ordered_script::<2, 2>(5) }
+#[kani::proof] #[kani::unwind(6)] pub(crate) fn merge_ordered_script_2_2_b6() { merge_ordered_script::<2, 2>(6) }
+#[kani::proof] #[kani::unwind(6)] pub(crate) fn merge_ordered_script_2_2_b7() { merge_ordered_script::<2, 2>(7) }
